@@ -4090,6 +4090,13 @@ class Wallet(object):
                         if not value:
                             raise WalletError("Input value is zero for address %s. Import or update UTXO's first "
                                               "or import transaction as dictionary" % address)
+                        if not unlocking_script_type:
+                            # The output is not known to this (offline) wallet: use the script type of its own keys
+                            key_witness_type = self.session.query(DbKey.witness_type).filter(DbKey.id == key_id).scalar()
+                            witness_type = key_witness_type if key_witness_type else self.witness_type
+                            unlocking_script_type = get_unlocking_script_type(
+                                script_type_default(witness_type, self.multisig, locking_script=True), witness_type,
+                                multisig=self.multisig)
 
                 amount_total_input += value
                 inp_keys, key = self._objects_by_key_id(key_id)
